@@ -15,6 +15,12 @@ Brief(r) ==
           file |-> r.file,
           bad_lookups |-> SelectSeq(r.lookups, LAMBDA a :
                 DContains(CovAt(r.cov, a[1]), a[2], a[3]) /\ a[4] # SrcAt(r.opts, r.tiles, <<a[1], a[2], a[3]>>))]
+    ELSE IF r.ev = "cli"
+    THEN [ev |-> "cli", id |-> r.id, tiles |-> r.tiles, opts |-> r.opts, fmt |-> r.fmt, exit |-> r.exit, args |-> r.args, err |-> r.err,
+          file |-> r.file, want_out |-> SetToSeq(CliExpected(r.opts, r.tiles))]
+    ELSE IF r.ev = "clirecomp"
+    THEN [ev |-> "clirecomp", id |-> r.id, src_tc |-> r.src_tc, target |-> r.target, force |-> r.force, fmt |-> r.fmt, exit |-> r.exit,
+          args |-> r.args, err |-> r.err, tiles |-> r.tiles, file |-> r.file]
     ELSE [ev |-> "recomp", id |-> r.id, src_tc |-> r.src_tc, target |-> r.target, force |-> r.force, fmt |-> r.fmt,
           declared |-> r.declared, tiles |-> r.tiles, lookups |-> r.lookups, walk |-> r.walk, file |-> r.file]
 
@@ -23,7 +29,8 @@ Next ==
     /\ l <= Len(Rec)
     /\ l' = l + 1
     /\ LET r == Rec[l]
-           f == IF r.ev = "conv" THEN ConvFails(r) ELSE RecompFails(r)
+           f == CASE r.ev = "conv" -> ConvFails(r) [] r.ev = "cli" -> CliFails(r)
+                  [] r.ev = "clirecomp" -> CliRecompFails(r) [] OTHER -> RecompFails(r)
        IN IF f = {} THEN TRUE
           ELSE PrintT(<<"FAIL", l, ToJson([clauses |-> SetToSeq(f), case |-> Brief(r)])>>)
 Spec == Init /\ [][Next]_vars
